@@ -58,6 +58,63 @@ fn op_kind(op: &Op) -> &'static str {
         Op::SudoParams { .. } => "sudo_params",
         Op::WlAddMember { .. } => "wl_add_member",
         Op::Migrate { .. } => "migrate",
+        Op::Burn { .. } => "holder_burn",
+        Op::TransferNft { .. } => "holder_transfer",
+    }
+}
+
+/// The harness's own ledger of the collection side: every id EVER issued by the minter, with its
+/// current holder (None = its holder burned it; a burned id stays issued).  The monitors judge
+/// freshness and sequence of ids against this ledger, never against what the collection holds now.
+#[derive(Default)]
+pub struct HolderLedger {
+    pub holder: BTreeMap<u64, Option<String>>,
+}
+impl HolderLedger {
+    /// records a freshly issued id; false if the id had been issued before (even if burned since)
+    pub fn issue(&mut self, id: u64, owner: &str) -> bool {
+        self.holder.insert(id, Some(owner.to_string())).is_none()
+    }
+    pub fn issued(&self) -> usize {
+        self.holder.len()
+    }
+    pub fn live(&self) -> BTreeSet<u64> {
+        self.holder.iter().filter(|(_, h)| h.is_some()).map(|(k, _)| *k).collect()
+    }
+    /// a cw721 Burn / TransferNft `who` sent to the collection; returns what the property text forbids
+    pub fn holder_op(&mut self, vname: &str, what: &str, who: &str, to: Option<&str>, id: u64, ok: bool, err: &Option<String>) -> Vec<(String, String)> {
+        let mut v = vec![];
+        // "@owner" = whoever holds the token by THIS ledger (the stranger if nobody does)
+        let resolved = if who == "@owner" { self.holder.get(&id).cloned().flatten().unwrap_or_else(|| STRANGER.to_string()) } else { who.to_string() };
+        let who = resolved.as_str();
+        if let Some(e) = err {
+            if e.starts_with("MINTER-CHANGED-BY-HOLDER-OP") {
+                v.push(("C01:holder-op-changed-minter".to_string(), format!("{}: {} of token {} by {} changed the minter's storage", vname, what, id, who)));
+            }
+        }
+        if ok {
+            let owner = self.holder.get(&id).cloned().flatten();
+            if owner.as_deref() != Some(who) {
+                v.push(("C01:holder-op-by-non-owner".to_string(), format!("{}: {} of token {} by {} succeeded, ledger holder {:?}", vname, what, id, who, owner)));
+            }
+            self.holder.insert(id, to.map(|t| t.to_string()));
+        }
+        v
+    }
+}
+/// (what, who, to, id) of a holder-side op of the vending world
+fn holder_args(op: &Op) -> Option<(&'static str, &str, Option<&str>, u64)> {
+    match op {
+        Op::Burn { who, token_id } => Some(("burn", who.as_str(), None, *token_id as u64)),
+        Op::TransferNft { who, to, token_id } => Some(("transfer", who.as_str(), Some(to.as_str()), *token_id as u64)),
+        _ => None,
+    }
+}
+fn oe_holder_args(op: &OeOp) -> Option<(&'static str, &str, Option<&str>, u64)> {
+    match op {
+        OeOp::Burn { who, token_id } => Some(("burn", who.as_str(), None, *token_id as u64)),
+        OeOp::TransferNft { who, to, token_id } => Some(("transfer", who.as_str(), Some(to.as_str()), *token_id as u64)),
+        _ => None,
     }
 }
 
@@ -77,7 +134,8 @@ pub fn run_case(c: &Case) -> CaseResult {
     let init_bal = w.balances_coq();
     let mut steps = vec![];
     // ---- monitor state (property text, independent of the model) ----
-    let mut minted: BTreeSet<u64> = BTreeSet::new();
+    let mut minted: BTreeSet<u64> = BTreeSet::new(); // ids EVER issued (a token its holder burned stays here)
+    let mut ledger = HolderLedger::default();
     let mut burned: u64 = 0;
     let mut burn_done = false;
     let init_ids: BTreeSet<u32> = w.positions().iter().map(|p| p.1).collect();
@@ -88,6 +146,15 @@ pub fn run_case(c: &Case) -> CaseResult {
         let before_pos = w.positions();
         let before_mintable = w.mintable();
         let out = w.run(op);
+        if let Some((what, who, to, id)) = holder_args(op) {
+            // holder side: the collection changes, the minter's books must not
+            *res.hist.entry(format!("{}:{}:{}", vname, op_kind(op), if out.ok { "ok" } else { "err" })).or_insert(0) += 1;
+            res.violations.extend(ledger.holder_op(vname, what, who, to, id, out.ok, &out.err));
+            if w.mintable() != before_mintable || w.positions() != before_pos {
+                res.violations.push(("C01:holder-op-changed-supply".into(), format!("{}: {:?} changed the remaining ids or their count", vname, op)));
+            }
+            continue;
+        }
         if !out.is_minter_step {
             continue;
         }
@@ -120,8 +187,9 @@ pub fn run_case(c: &Case) -> CaseResult {
                         res.violations.push(("C01:id-out-of-range".into(), format!("{}: minted id {} outside 1..={}", vname, id, n)));
                     }
                     if !minted.insert(*id) {
-                        res.violations.push(("C01:id-minted-twice".into(), format!("{}: id {} minted twice", vname, id)));
+                        res.violations.push(("C01:id-minted-twice".into(), format!("{}: id {} minted twice (ids ever issued: {:?})", vname, id, minted)));
                     }
+                    ledger.issue(*id, owner.as_deref().unwrap_or(""));
                     if let Op::MintFor { token_id, .. } = op {
                         if *id != *token_id as u64 {
                             res.violations.push(("C01:mint-for-wrong-id".into(), format!("{}: MintFor({}) delivered {}", vname, token_id, id)));
@@ -169,9 +237,11 @@ pub fn run_case(c: &Case) -> CaseResult {
         }
     }
     // collection agrees with the trace
+    // (what it holds now = ids ever issued minus those their holders burned, by the ledger)
     let toks: BTreeSet<u64> = w.all_tokens().iter().map(|t| t.parse().unwrap_or(0)).collect();
-    if toks != minted || w.num_tokens_collection() != minted.len() as u64 {
-        res.violations.push(("C01:collection-mismatch".into(), format!("{}: collection holds {:?}, trace minted {:?}", vname, toks, minted)));
+    let live = ledger.live();
+    if toks != live || w.num_tokens_collection() != live.len() as u64 {
+        res.violations.push(("C01:collection-mismatch".into(), format!("{}: collection holds {:?}, ledger: issued {:?}, still held {:?}", vname, toks, minted, live)));
     }
     res.coq = Some(case_coq(&mut w, &init, &init_bal, &steps));
     res
@@ -239,7 +309,40 @@ fn gen_case(rng: &mut Rng, variant: usize, thorough: bool) -> Case {
     ops.push(Op::Purge { who: STRANGER.into() });
     // migrations of the minter at random places of the history (~2.5 % of the operations)
     sprinkle_migrates(rng, &mut ops, 25);
+    // holder-side Burn / TransferNft on the collection (~3 % of the operations)
+    let mut i = 0;
+    while i < ops.len() {
+        if rng.below(1000) < 30 {
+            let (who, to, id) = gen_holder_args(rng, num_tokens.min(60));
+            ops.insert(i, if rng.chance(2, 3) { Op::Burn { who, token_id: id } } else { Op::TransferNft { who, to, token_id: id } });
+            i += 1;
+        }
+        i += 1;
+    }
     Case { variant, updatable: rng.chance(1, 4), num_tokens, pal, price, ops }
+}
+
+/// greedy shrinking of a vending history: drop every op whose removal keeps a violation with the same key
+fn shrink_v(c: &Case, key: &str) -> Case {
+    let has = |c: &Case| run_case(c).violations.iter().any(|(k, _)| k == key);
+    let mut cur = c.clone();
+    let mut i = cur.ops.len();
+    while i > 0 {
+        i -= 1;
+        let mut t = cur.clone();
+        t.ops.remove(i);
+        if has(&t) {
+            cur = t;
+        }
+    }
+    cur
+}
+
+/// (who, to, token id) of a random holder op: mostly sent by the token's current holder
+fn gen_holder_args(rng: &mut Rng, max_id: u32) -> (String, String, u32) {
+    let who = if rng.chance(3, 4) { "@owner".to_string() } else { (*rng.pick(&[BUYERS[0], BUYERS[1], STRANGER, CREATOR])).to_string() };
+    let to = (*rng.pick(&[BUYERS[0], BUYERS[1], BUYERS[2], STRANGER])).to_string();
+    (who, to, rng.range(1, max_id.max(1) as u64) as u32)
 }
 
 /// curated minimal histories (always run first)
@@ -247,6 +350,53 @@ fn corpus() -> Vec<Case> {
     let native = |a: u128| vec![(NATIVE.to_string(), a)];
     let mut v = vec![];
     for variant in 0..6 {
+        // holders burn and transfer tokens on the collection between mints: the newest, an older one,
+        // all of them; a burned id is sold for good (MintFor it fails), fresh ids keep coming, the
+        // counts do not move, burn-remaining closes the sale
+        let mf = |id: u32, to: &str| Op::MintFor { who: CREATOR.into(), token_id: id, recipient: to.into(), funds: vec![] };
+        let burn = |who: &str, id: u32| Op::Burn { who: who.into(), token_id: id };
+        v.push(Case {
+            variant,
+            updatable: variant % 2 == 1,
+            num_tokens: 7,
+            pal: 3,
+            price: 100,
+            ops: vec![
+                Op::At { secs: 200, nanos: 0 },
+                mf(1, BUYERS[0]),
+                mf(2, BUYERS[0]),
+                mf(3, BUYERS[1]),
+                burn(STRANGER, 3),
+                burn(BUYERS[1], 3),
+                Op::Mint { who: BUYERS[2].into(), funds: native(100) },
+                mf(3, BUYERS[1]),
+                burn(BUYERS[0], 1),
+                mf(1, BUYERS[0]),
+                Op::MintTo { who: CREATOR.into(), recipient: BUYERS[1].into(), funds: vec![] },
+                Op::TransferNft { who: BUYERS[0].into(), to: STRANGER.into(), token_id: 2 },
+                burn(BUYERS[0], 2),
+                burn(STRANGER, 2),
+                mf(2, BUYERS[0]),
+                Op::Shuffle { who: STRANGER.into(), funds: native(500) },
+                burn("@owner", 4),
+                burn("@owner", 5),
+                burn("@owner", 6),
+                burn("@owner", 7),
+                Op::Mint { who: BUYERS[2].into(), funds: native(100) },
+                burn("@owner", 4),
+                burn("@owner", 5),
+                burn("@owner", 6),
+                burn("@owner", 7),
+                mf(4, BUYERS[0]),
+                mf(5, BUYERS[0]),
+                Op::BurnRemaining { who: CREATOR.into() },
+                mf(6, BUYERS[0]),
+                mf(7, BUYERS[0]),
+                mf(3, BUYERS[0]),
+                Op::Mint { who: BUYERS[2].into(), funds: native(100) },
+                Op::MintTo { who: CREATOR.into(), recipient: BUYERS[1].into(), funds: vec![] },
+            ],
+        });
         // sell out 2 tokens by mint-for in reverse order, then every creator of tokens must fail
         v.push(Case {
             variant,
@@ -430,9 +580,11 @@ pub fn run(a: &Args) {
         for (key, what) in r.violations.iter().take(3) {
             nviol += 1;
             if nviol <= 20 {
+                // the first few failing histories are shrunk (ops removed while the same violation persists)
+                let shrunk = if nviol <= 3 && a.replay.is_none() { shrink_v(c, key) } else { c.clone() };
                 let body = format!(
                     "{{\n \"property\": \"C01\",\n \"case\": {},\n \"violation\": {}\n}}\n",
-                    serde_json::to_string(c).unwrap(),
+                    serde_json::to_string(&shrunk).unwrap(),
                     serde_json::to_string(what).unwrap()
                 );
                 let path = out.write_replay(&format!("C01-{}.json", nviol), &body);
@@ -513,6 +665,7 @@ pub fn run_oe_case(c: &OeCase) -> CaseResult {
                 }
             };
             let mut successes: u64 = 0;
+            let mut ledger = HolderLedger::default();
             let mut burn_done = false;
             if w.total_mint_count() != 0 || w.num_tokens_collection() != 0 {
                 res.violations.push(("C01:oe-initial-count".into(), format!("{}: counts are not 0 after creation", vname)));
@@ -526,7 +679,17 @@ pub fn run_oe_case(c: &OeCase) -> CaseResult {
             for op in ops {
                 let end_before = w.end_time();
                 let now_before = chain_now(&w);
+                let books_before = (w.total_mint_count(), w.mintable(), w.token_index_raw());
                 let out = w.run(op);
+                if let Some((what, who, to, id)) = oe_holder_args(op) {
+                    // holder side: the collection changes, the minter's books must not
+                    *res.hist.entry(format!("{}:{}:{}", vname, oe_op_kind(op), if out.ok { "ok" } else { "err" })).or_insert(0) += 1;
+                    res.violations.extend(ledger.holder_op(vname, what, who, to, id, out.ok, &out.err));
+                    if (w.total_mint_count(), w.mintable(), w.token_index_raw()) != books_before {
+                        res.violations.push(("C01:holder-op-changed-supply".into(), format!("{}: {:?} changed the minter's counts", vname, op)));
+                    }
+                    continue;
+                }
                 if !out.is_minter_step {
                     continue;
                 }
@@ -568,6 +731,9 @@ pub fn run_oe_case(c: &OeCase) -> CaseResult {
                                     format!("{}: successful mint number {} was given id {}", vname, successes, id),
                                 ));
                             }
+                            if !ledger.issue(*id, owner.as_deref().unwrap_or("")) {
+                                res.violations.push(("C01:oe-id-reissued".into(), format!("{}: id {} was issued before (ledger of ids ever issued; a burned id stays issued)", vname, id)));
+                            }
                             let want_owner = match op {
                                 OeOp::Mint { who, .. } | OeOp::MintM { who, .. } => who.clone(),
                                 OeOp::MintTo { recipient, .. } => recipient.clone(),
@@ -592,10 +758,10 @@ pub fn run_oe_case(c: &OeCase) -> CaseResult {
                     ));
                 }
                 let held = w.num_tokens_collection();
-                if held != successes {
+                if held != ledger.live().len() as u64 {
                     res.violations.push((
                         "C01:oe-collection-count".into(),
-                        format!("{}: after {:?}: collection holds {} tokens but {} mints succeeded", vname, op, held, successes),
+                        format!("{}: after {:?}: collection holds {} tokens but {} mints succeeded and {} are still held", vname, op, held, successes, ledger.live().len()),
                     ));
                 }
                 if let Some(cp) = cap {
@@ -616,8 +782,8 @@ pub fn run_oe_case(c: &OeCase) -> CaseResult {
             }
             let mut toks: Vec<u64> = w.all_tokens().iter().map(|t| t.parse().unwrap_or(0)).collect();
             toks.sort();
-            if toks != (1..=successes).collect::<Vec<u64>>() {
-                res.violations.push(("C01:oe-collection-ids".into(), format!("{}: collection holds {:?}, expected 1..={}", vname, toks, successes)));
+            if toks != ledger.live().into_iter().collect::<Vec<u64>>() || ledger.issued() as u64 != successes {
+                res.violations.push(("C01:oe-collection-ids".into(), format!("{}: collection holds {:?}, expected 1..={} minus the ids their holders burned ({:?} left)", vname, toks, successes, ledger.live())));
             }
             // every token exists in the collection of the configured kind with the configured metadata
             for what in w.metadata_violations() {
@@ -638,8 +804,18 @@ pub fn run_oe_case(c: &OeCase) -> CaseResult {
             let init_bal = w.balances_coq();
             let mut steps = vec![];
             let mut successes: u64 = 0;
+            let mut ledger = HolderLedger::default();
             for op in ops {
+                let index_before = w.token_index_raw();
                 let out = w.run(op);
+                if let Some((what, who, to, id)) = oe_holder_args(op) {
+                    *res.hist.entry(format!("{}:{}:{}", vname, oe_op_kind(op), if out.ok { "ok" } else { "err" })).or_insert(0) += 1;
+                    res.violations.extend(ledger.holder_op(vname, what, who, to, id, out.ok, &out.err));
+                    if w.token_index_raw() != index_before {
+                        res.violations.push(("C01:holder-op-changed-supply".into(), format!("{}: {:?} changed the minter's token index", vname, op)));
+                    }
+                    continue;
+                }
                 if !out.is_minter_step {
                     continue;
                 }
@@ -663,6 +839,9 @@ pub fn run_oe_case(c: &OeCase) -> CaseResult {
                             if *id != successes {
                                 res.violations.push(("C01:base-id-not-sequential".into(), format!("{}: successful mint number {} was given id {}", vname, successes, id)));
                             }
+                            if !ledger.issue(*id, owner.as_deref().unwrap_or("")) {
+                                res.violations.push(("C01:base-id-reissued".into(), format!("{}: id {} was issued before (ledger of ids ever issued; a burned id stays issued)", vname, id)));
+                            }
                             if let OeOp::BaseMint { who, .. } = op {
                                 if owner.as_deref() != Some(who.as_str()) {
                                     res.violations.push(("C01:base-wrong-owner".into(), format!("{}: token {} owned by {:?}, expected {}", vname, id, owner, who)));
@@ -672,10 +851,10 @@ pub fn run_oe_case(c: &OeCase) -> CaseResult {
                         None => res.violations.push(("C01:base-mint-without-token".into(), format!("{}: {:?} succeeded but no token id reported", vname, op))),
                     }
                 }
-                if w.num_tokens_collection() != successes {
+                if w.num_tokens_collection() != ledger.live().len() as u64 {
                     res.violations.push((
                         "C01:base-collection-count".into(),
-                        format!("{}: after {:?}: collection holds {} tokens but {} mints succeeded", vname, op, w.num_tokens_collection(), successes),
+                        format!("{}: after {:?}: collection holds {} tokens but {} mints succeeded and {} are still held", vname, op, w.num_tokens_collection(), successes, ledger.live().len()),
                     ));
                 }
                 if res.violations.len() > 5 {
@@ -684,8 +863,8 @@ pub fn run_oe_case(c: &OeCase) -> CaseResult {
             }
             let mut toks: Vec<u64> = w.all_tokens().iter().map(|t| t.parse().unwrap_or(0)).collect();
             toks.sort();
-            if toks != (1..=successes).collect::<Vec<u64>>() {
-                res.violations.push(("C01:base-collection-ids".into(), format!("{}: collection holds {:?}, expected 1..={}", vname, toks, successes)));
+            if toks != ledger.live().into_iter().collect::<Vec<u64>>() || ledger.issued() as u64 != successes {
+                res.violations.push(("C01:base-collection-ids".into(), format!("{}: collection holds {:?}, expected 1..={} minus the ids their holders burned ({:?} left)", vname, toks, successes, ledger.live())));
             }
             res.coq = Some(w.case_coq(&init, &init_bal, &steps));
         }
@@ -932,6 +1111,41 @@ fn oe_corpus() -> Vec<OeCase> {
         ops.push(OeOp::MintM { who: BUYERS[0].into(), funds: nat(100), stage: None, proof: Some(vec![]), allocation: None });
         ops.push(OeOp::MintM { who: BUYERS[0].into(), funds: nat(100), stage: None, proof: None, allocation: None });
         v.push(OeCase::Oe { cfg, ops });
+        // (i) holders burn and transfer tokens on the collection between mints: the newest, an older one, all of
+        //     them; ids keep counting 1,2,3,... (a burned id is never issued again), the minter's counts do not
+        //     move, burn-remaining after the end closes the edition
+        let mut cfg = OeCfg::basic(variant);
+        cfg.num_tokens = Some(8);
+        cfg.onchain = variant == 1;
+        let oburn = |who: &str, id: u32| OeOp::Burn { who: who.into(), token_id: id };
+        let pmint = |who: &str| OeOp::MintM { who: who.into(), funds: nat(100), stage: None, proof: None, allocation: None };
+        v.push(OeCase::Oe {
+            cfg,
+            ops: vec![
+                OeOp::At { secs: 3000, nanos: 0 },
+                pmint(BUYERS[0]),
+                pmint(BUYERS[0]),
+                OeOp::MintTo { who: CREATOR.into(), recipient: BUYERS[1].into(), funds: nat(40) },
+                oburn(STRANGER, 3),
+                oburn(BUYERS[1], 3),
+                pmint(BUYERS[2]),
+                oburn(BUYERS[0], 1),
+                OeOp::MintTo { who: CREATOR.into(), recipient: BUYERS[1].into(), funds: nat(40) },
+                OeOp::TransferNft { who: BUYERS[0].into(), to: STRANGER.into(), token_id: 2 },
+                oburn(BUYERS[0], 2),
+                oburn(STRANGER, 2),
+                oburn("@owner", 4),
+                oburn("@owner", 5),
+                oburn("@owner", 5),
+                pmint(BUYERS[2]),
+                OeOp::Purge { who: STRANGER.into() },
+                OeOp::At { secs: 5000, nanos: 1 },
+                OeOp::BurnRemaining { who: CREATOR.into() },
+                oburn("@owner", 6),
+                pmint(BUYERS[2]),
+                OeOp::MintTo { who: CREATOR.into(), recipient: BUYERS[1].into(), funds: nat(40) },
+            ],
+        });
         // (g) on-chain metadata without an image: the token is stored with the extension as configured
         let mut cfg = OeCfg::basic(variant);
         cfg.num_tokens = Some(2);
@@ -980,6 +1194,33 @@ fn oe_corpus() -> Vec<OeCase> {
                 OeOp::UpdateEndTime { who: CREATOR.into(), secs: 2400, nanos: 0 },
                 OeOp::UpdateEndTime { who: CREATOR.into(), secs: 2500, nanos: 0 },
                 OeOp::Mint { who: BUYERS[2].into(), funds: nat(120) },
+            ],
+        });
+    }
+    // base minter: the creator (and a later holder) burns the newest token, an older one, all of them; ids go on 1,2,3,...
+    {
+        let uri = "ipfs://bafybeigi3bwpvyvsmnbj46ra4hyffcxdeaj6ntfk5jpic5mx27x6ih2qvq/1.json";
+        let bm = || OeOp::BaseMint { who: CREATOR.into(), uri: uri.into(), funds: nat(500) };
+        let bb = |who: &str, id: u32| OeOp::Burn { who: who.into(), token_id: id };
+        v.push(OeCase::Base {
+            cfg: BaseCfg::default(),
+            ops: vec![
+                bm(),
+                bm(),
+                bm(),
+                bb(STRANGER, 3),
+                bb(CREATOR, 3),
+                bm(),
+                bb(CREATOR, 1),
+                bm(),
+                OeOp::TransferNft { who: CREATOR.into(), to: BUYERS[0].into(), token_id: 2 },
+                bb(CREATOR, 2),
+                bb(BUYERS[0], 2),
+                bb("@owner", 4),
+                bb("@owner", 5),
+                bm(),
+                bb("@owner", 6),
+                bm(),
             ],
         });
     }
@@ -1176,7 +1417,21 @@ fn gen_oe_case(rng: &mut Rng, variant: usize, thorough: bool) -> OeCase {
     ops.push(OeOp::Purge { who: STRANGER.into() });
     drop(fund);
     sprinkle_oe_migrates(rng, &mut ops, 25);
+    sprinkle_oe_holder_ops(rng, &mut ops, 8, 30);
     OeCase::Oe { cfg, ops }
+}
+
+/// holder-side Burn / TransferNft on the collection (`permille` of the operations)
+fn sprinkle_oe_holder_ops(rng: &mut Rng, ops: &mut Vec<OeOp>, max_id: u32, permille: u64) {
+    let mut i = 0;
+    while i < ops.len() {
+        if rng.below(1000) < permille {
+            let (who, to, id) = gen_holder_args(rng, max_id);
+            ops.insert(i, if rng.chance(2, 3) { OeOp::Burn { who, token_id: id } } else { OeOp::TransferNft { who, to, token_id: id } });
+            i += 1;
+        }
+        i += 1;
+    }
 }
 
 fn gen_base_case(rng: &mut Rng) -> OeCase {
@@ -1227,6 +1482,8 @@ fn gen_base_case(rng: &mut Rng) -> OeCase {
         };
         ops.push(op);
     }
+    // the base minter has few operations of its own: holder operations are a tenth of the history
+    sprinkle_oe_holder_ops(rng, &mut ops, 6, 100);
     OeCase::Base { cfg, ops }
 }
 
